@@ -252,9 +252,10 @@ Proof.
 Qed.
 
 (** momentum: E d_in = E' d' + p_e d_e with p_e = sqrt(T (T + 2 m)), whenever
-    the electron is emitted *)
+    the electron is emitted and the tree's rotate() recovers the azimuth of the
+    incident direction faithfully (branch hypothesis) *)
 Theorem kn_momentum_conserved (me : R) (p : kn_params R) a s r a' s' sec :
-  kn_ok me p -> canon s ->
+  kn_ok me p -> canon s -> rot_branch_ok (kn_dir p) ->
   kn_sample p a s = Some ((r, a'), s') -> i_secs r = [sec] -> s_pid sec = PElectron ->
   let pe := sqrt (s_energy sec * (s_energy sec + 2 * me)) in
   let E := kn_energy p in
@@ -262,7 +263,7 @@ Theorem kn_momentum_conserved (me : R) (p : kn_params R) a s r a' s' sec :
   vy (kn_dir p) * E = vy (i_dir r) * i_energy r + vy (s_dir sec) * pe /\
   vz (kn_dir p) * E = vz (i_dir r) * i_energy r + vz (s_dir sec) * pe.
 Proof.
-  intros (Hme & Hinv & HE & Hd) Hc E Hsec Hpid.
+  intros (Hme & Hinv & HE & Hd) Hc Hb E Hsec Hpid.
   apply kn_sample_inv in E as [(_ & Hr & _)|(Ha & eps & omc & s1 & E1 & E2)].
   { subst r. discriminate. }
   assert (Hk : 0 < kn_k p).
@@ -271,7 +272,7 @@ Proof.
   destruct (kn_eps0_range _ Hk) as [[He0 He1] _].
   apply kn_assemble_inv in E2 as (dir & Ed & Hcase).
   assert (Hcos : -1 <= 1 - omc <= 1) by lra.
-  destruct (exiting_direction_spec _ _ _ _ _ Ed Hcos Hd) as (u & _ & Hdir & Hpol).
+  destruct (exiting_direction_spec _ _ _ _ _ Ed Hcos Hd) as (u & _ & Hdir & Hpol). specialize (Hpol Hb).
   cbv zeta in Hcase. destruct Hcase as [[Hlt Hr]|[Hge Hr]]; subst r; cbn [i_secs] in Hsec; inversion Hsec; subst sec.
   { discriminate. }
   cbn [i_dir i_energy s_energy s_dir]. cbv zeta.
